@@ -686,3 +686,73 @@ fn c12_t_limits_other_widths() {
         4 => int_lerp_limits!(usize, u8, f32, 56), 5 => int_lerp_limits!(usize, u8, f64, 56), 6 => int_lerp_limits!(isize, i8, f32, 56), _ => int_lerp_limits!(isize, i8, f64, 56),
     }
 }
+
+// ---- vector / quaternion precise forms at f32: exact endpoints under rounding ------------------------------------
+fn fin() -> f32 { let x: f32 = kani::any(); kani::assume(x.is_finite()); x }
+/// K: fns=Vec3::lerp_unclamped_precise,Vec3::lerp_precise,<Vec3 as Lerp<f32>>::lerp_unclamped_precise,<&Vec3 as Lerp<f32>>::lerp_unclamped_precise,Quaternion::lerp_unclamped_precise_unnormalized,Vec2::lerp_unclamped_precise,Rgba::lerp_unclamped_precise
+/// K: inst=Vec2/Vec3/Rgba/Quaternion<f32> | bound=all finite components; factors 0, 1 (scalar and per element), 2 and -1 for the clamped form | stubs=f32::mul_add -> contract (exact where the product is exact)
+/// K: asserts=the precise forms return `from` exactly at 0 and `to` exactly at 1, per element for a per-element factor; clamped form saturates
+#[kani::proof]
+#[kani::stub(f32::mul_add, crate::fstub::fma32_contract)]
+fn c12_q_vec_f32_precise_endpoints() {
+    use vek::quaternion::repr_c::Quaternion;
+    use vek::vec::repr_c::{Rgba, Vec2, Vec3};
+    match kani::any::<u8>() % 4 {
+        0 => {
+            let (a, b) = (Vec3::new(fin(), fin(), fin()), Vec3::new(fin(), fin(), fin()));
+            kani::cover!(a.x > 1.0e30 && b.x < -1.0e30, "huge endpoints of opposite sign");
+            kani::cover!(a.y != b.y && b.y.abs() < 1.0e-38, "subnormal endpoint");
+            assert!(Vec3::lerp_unclamped_precise(a, b, 0.0f32) == a && Vec3::lerp_unclamped_precise(a, b, 1.0f32) == b, "inherent, scalar factor");
+            assert!(Vec3::lerp_unclamped_precise(a, b, Vec3::new(0.0f32, 1.0, 0.0)) == Vec3::new(a.x, b.y, a.z), "inherent, per-element factor");
+            assert!(Vec3::lerp_precise(a, b, 2.0f32) == b && Vec3::lerp_precise(a, b, -1.0f32) == a, "inherent, clamped");
+            assert!(<Vec3<f32> as Lerp<f32>>::lerp_unclamped_precise(a, b, 1.0) == b && <Vec3<f32> as Lerp<f32>>::lerp_unclamped_precise(a, b, 0.0) == a, "Lerp<f32>");
+            assert!(<&Vec3<f32> as Lerp<f32>>::lerp_unclamped_precise(&a, &b, 1.0) == b, "Lerp<f32> by reference");
+        }
+        1 => {
+            let (a, b) = (Vec2::new(fin(), fin()), Vec2::new(fin(), fin()));
+            assert!(Vec2::lerp_unclamped_precise(a, b, 0.0f32) == a && Vec2::lerp_unclamped_precise(a, b, 1.0f32) == b);
+            assert!(<Vec2<f32> as Lerp<f32>>::lerp_precise(a, b, 7.0) == b && <Vec2<f32> as Lerp<f32>>::lerp_precise(a, b, -7.0) == a);
+        }
+        2 => {
+            let (a, b) = (Rgba::new(fin(), fin(), fin(), fin()), Rgba::new(fin(), fin(), fin(), fin()));
+            assert!(Rgba::lerp_unclamped_precise(a, b, 0.0f32) == a && Rgba::lerp_unclamped_precise(a, b, 1.0f32) == b);
+        }
+        _ => {
+            let (a, b) = (Quaternion::from_xyzw(fin(), fin(), fin(), fin()), Quaternion::from_xyzw(fin(), fin(), fin(), fin()));
+            assert!(Quaternion::lerp_unclamped_precise_unnormalized(a, b, 0.0) == a && Quaternion::lerp_unclamped_precise_unnormalized(a, b, 1.0) == b);
+            assert!(Quaternion::lerp_precise_unnormalized(a, b, 3.0) == b && Quaternion::lerp_precise_unnormalized(a, b, -3.0) == a);
+        }
+    }
+}
+
+// ---- integer precise form: every endpoint the factor type represents exactly ------------------------------------
+/// K: fns=i32::lerp_unclamped_precise,i32::lerp_precise,<&i32>::lerp_unclamped_precise,i32::lerp_unclamped (Lerp<f32>) | inst=i32, factor f32 | bound=ALL endpoints with |x| <= 2^24 (every one of them is an f32); factors 0, 1, and outside [0,1] for the clamped form
+/// K: asserts=precise form returns the endpoints themselves (rounding to nearest of an integer-valued float is the identity, also for the odd values just below 2^24); fast form at 0; no panic
+#[kani::proof]
+fn c12_q_i32_precise_endpoints_f32() {
+    let (a, b): (i32, i32) = (kani::any(), kani::any());
+    kani::assume(a >= -16777216 && a <= 16777216 && b >= -16777216 && b <= 16777216);
+    kani::cover!(a == 16777215 && b == -16777215, "odd endpoints next to 2^24");
+    kani::cover!(b < a, "to < from");
+    assert!(<i32 as Lerp<f32>>::lerp_unclamped_precise(a, b, 0.0) == a, "precise at 0");
+    assert!(<i32 as Lerp<f32>>::lerp_unclamped_precise(a, b, 1.0) == b, "precise at 1");
+    assert!(<&i32 as Lerp<f32>>::lerp_unclamped_precise(&a, &b, 1.0) == b, "precise at 1 by reference");
+    assert!(<i32 as Lerp<f32>>::lerp_precise(a, b, 2.5) == b && <i32 as Lerp<f32>>::lerp_precise(a, b, -0.5) == a, "clamped precise form");
+    assert!(<i32 as Lerp<f32>>::lerp_unclamped(a, b, 0.0) == a, "fast at 0");
+}
+/// K: fns=i64::lerp_unclamped_precise,i64::lerp_precise,u64::lerp_unclamped_precise (Lerp<f64>) | inst=i64,u64, factor f64 | bound=ALL endpoints with |x| <= 2^53 (every one of them is an f64); factors 0, 1, and outside [0,1] for the clamped form | cap=600
+/// K: asserts=precise form returns the endpoints themselves, also for the odd values just below 2^53; no panic
+#[kani::proof]
+fn c12_q_i64_precise_endpoints_f64() {
+    let (a, b): (i64, i64) = (kani::any(), kani::any());
+    let lim: i64 = 1 << 53;
+    kani::assume(a >= -lim && a <= lim && b >= -lim && b <= lim);
+    kani::cover!(a == lim - 1 && b == 1 - lim, "odd endpoints next to 2^53");
+    assert!(<i64 as Lerp<f64>>::lerp_unclamped_precise(a, b, 0.0) == a, "precise at 0");
+    assert!(<i64 as Lerp<f64>>::lerp_unclamped_precise(a, b, 1.0) == b, "precise at 1");
+    assert!(<i64 as Lerp<f64>>::lerp_precise(a, b, 2.5) == b && <i64 as Lerp<f64>>::lerp_precise(a, b, -0.5) == a, "clamped precise form");
+    if a >= 0 && b >= 0 {
+        let (ua, ub) = (a as u64, b as u64);
+        assert!(<u64 as Lerp<f64>>::lerp_unclamped_precise(ua, ub, 1.0) == ub && <u64 as Lerp<f64>>::lerp_unclamped_precise(ua, ub, 0.0) == ua, "u64");
+    }
+}
